@@ -610,8 +610,35 @@ func sortedAfter(w *World, p *packages.Package, d *ast.FuncDecl, blocks []*ast.B
 		})
 		return found
 	}
+	onlyLen := func(n ast.Node) bool {
+		// every mention of obj is the argument of len(): order-insensitive
+		ok := true
+		var stack []ast.Node
+		ast.Inspect(n, func(m ast.Node) bool {
+			if m == nil {
+				stack = stack[:len(stack)-1]
+				return true
+			}
+			stack = append(stack, m)
+			if id, isID := m.(*ast.Ident); isID && info.ObjectOf(id) == obj {
+				lenArg := false
+				if len(stack) >= 2 {
+					if call, isCall := stack[len(stack)-2].(*ast.CallExpr); isCall {
+						if fid, isF := call.Fun.(*ast.Ident); isF && fid.Name == "len" && len(call.Args) == 1 && call.Args[0] == ast.Expr(id) {
+							lenArg = true
+						}
+					}
+				}
+				if !lenArg {
+					ok = false
+				}
+			}
+			return true
+		})
+		return ok
+	}
 	for _, s := range parent.List[idx+1:] {
-		if !mentions(s) {
+		if !mentions(s) || onlyLen(s) {
 			continue
 		}
 		es, ok := s.(*ast.ExprStmt)
